@@ -124,7 +124,7 @@ func runC13(c *mon.Ctx) {
 	kr := c.RandShared("keys")
 	now := time.Now()
 	nowMs := now.UnixMilli()
-	n := c.Scale(800, 24000)
+	n := c.Scale(800, 160000)
 	for k := 0; k < n; k++ {
 		origin := gen.Pick(r, c13names)
 		dest := gen.Pick(r, c13names)
